@@ -13,6 +13,7 @@ TARGETS = ['selfies/grammar_rules.py::get_selfies_from_index',
            'selfies/utils/smiles_utils.py::atom_to_smiles',
            'selfies/utils/smiles_utils.py::smiles_to_atom',
            'selfies/utils/smiles_utils.py::tokenize_smiles']
+ASSUMPTIONS = ["atom-symbol contracts (process_atom_symbol, _process_atom_selfies_no_cache, smiles_to_atom, tokenize_smiles) assume ASCII input of at most 4000 characters: Unicode digits matched by \\\\d and CPython's 4300-digit int() limit are recorded known findings", "regex match groups are modelled as SOME decomposition of the string into the pattern's top-level pieces (sound over-approximation of the greedy choice); functools.partial(Atom, **kw) is modelled as a heap object whose call constructs a fresh Atom"]
 EXPLANATION = (
     "Mixed. PROVED: exception-freedom obligations of the functions under contract listed in functions_under_contract "
     "(each operation that can raise is proved safe or covered by the function's raises clause; get_selfies_from_index "
